@@ -87,4 +87,33 @@ def years (dt : Date) : Dbl :=
     div (add s e) (ofNat 2)
   else yearsFull dt.year dt.month dt.day
 
+/-! ### `DateRange.Years()` and `DateRange.Similarity()` (date_range.go) -/
+
+/-- `|a - b|`: the magnitude of the float64 difference (rounding is symmetric in the sign) -/
+def absdiff (a b : Dbl) : Dbl :=
+  let x := a.mant * 2 ^ b.frac
+  let y := b.mant * 2 ^ a.frac
+  rnd (if y ≤ x then x - y else y - x) (2 ^ (a.frac + b.frac))
+
+/-- `a * b` -/
+def mul (a b : Dbl) : Dbl := rnd (a.mant * b.mant) (2 ^ (a.frac + b.frac))
+
+def one : Dbl := ⟨1, 0⟩
+
+/-- `1 - p` for `p ≤ 1` -/
+def oneMinus (p : Dbl) : Dbl := rnd (2 ^ p.frac - p.mant) (2 ^ p.frac)
+
+/-- `DateRange.Years()`: `(start.Years() + end.Years()) / 2.0` -/
+def rangeYears (s e : Dbl) : Dbl := div (add s e) (ofNat 2)
+
+/-- `DateRange.Similarity(dr2, maxYears)` on the `Years()` values of the two ranges:
+    `similarity := math.Pow((left - right) / maxYears, 2)` (the square is one multiplication of
+    the magnitude), `0` when it exceeds one, else `1 - similarity` -/
+def simOfDist (dist maxYears : Dbl) : Dbl :=
+  let q := div dist maxYears
+  let p := mul q q
+  if lt one p then ⟨0, 0⟩ else oneMinus p
+
+def dateSimilarity (l r maxYears : Dbl) : Dbl := simOfDist (absdiff l r) maxYears
+
 end Gedcom.F64
